@@ -1,4 +1,5 @@
 import GlyProofs.Front.WalkDen
+import GlyProofs.Front.TreeShape
 /-
   C03 — The parsed tree is the glycan that was written, all of it.  (Property theorems only.)
 -/
@@ -10,5 +11,60 @@ open Gly
     chain), brackets in brackets, floating fragments. -/
 theorem C03_walk_eq_denote (w : WalkCfg) (s : Start) : walkStart w s = denStart w s :=
   walkStart_eq_denStart w s
+
+/-- the root residue as the walker stores it: its tokens, plus the anomer written after a blank -/
+def rootRecipe (w : WalkCfg) (s : Start) : Recipe :=
+  if (s.begin.config.getD []).isEmpty then s.begin.d else s.begin.d ++ [(s.begin.config.getD [], w.tTYPE)]
+
+/-- **One node per written residue, carrying its written name; the last-written residue is the root** (glycans without
+    floating `{…}` fragments, any depth and branching): node 0 is the reducing-end residue and the nodes are – up to the order
+    in which ids are handed out – exactly the residues written in the string, each once. -/
+theorem C03_one_node_per_residue (w : WalkCfg) (s : Start) (hf : s.floats = []) :
+    (walkStart w s).nodes.head? = some (rootRecipe w s) ∧
+    (walkStart w s).nodes.Perm (rootRecipe w s :: (match s.begin.branch with | none => [] | some br => br.written)) := by
+  rw [walkStart_eq_denStart]
+  simp only [denStart, hf, List.foldl_nil, addNode, WState.init, List.length_nil, List.nil_append, rootRecipe]
+  cases hb : s.begin.branch with
+  | none => simp
+  | some br =>
+    simp only
+    obtain ⟨hn, _⟩ := flatten_shape w (den br .nil) 0
+      ⟨[if (s.begin.config.getD []).isEmpty then s.begin.d else s.begin.d ++ [(s.begin.config.getD [], w.tTYPE)]], [],
+        true && w.nodeFull (if (s.begin.config.getD []).isEmpty then s.begin.d else s.begin.d ++ [(s.begin.config.getD [], w.tTYPE)])⟩
+      (by simp)
+    rw [hn]
+    refine ⟨by simp, ?_⟩
+    simp only [List.singleton_append]
+    exact List.Perm.cons _ (by simpa [preNames] using den_names_perm br .nil)
+
+/-- **It is a tree rooted at node 0**: every node except the root has exactly one incoming edge – the edges' children are the ids
+    `1, 2, …, n-1`, each once – and every edge points from a smaller id to a larger one (so there is no cycle and everything
+    hangs on node 0). -/
+theorem C03_tree_shape (w : WalkCfg) (s : Start) (hf : s.floats = []) :
+    (walkStart w s).edges.map (·.2.1) = List.range' 1 ((walkStart w s).nodes.length - 1) ∧
+    ∀ e ∈ (walkStart w s).edges, e.1 < e.2.1 := by
+  rw [walkStart_eq_denStart]
+  simp only [denStart, hf, List.foldl_nil, addNode, WState.init, List.length_nil, List.nil_append]
+  cases hb : s.begin.branch with
+  | none => simp
+  | some br =>
+    simp only
+    obtain ⟨hn, es, he, hc, hp⟩ := flatten_shape w (den br .nil) 0
+      ⟨[if (s.begin.config.getD []).isEmpty then s.begin.d else s.begin.d ++ [(s.begin.config.getD [], w.tTYPE)]], [],
+        true && w.nodeFull (if (s.begin.config.getD []).isEmpty then s.begin.d else s.begin.d ++ [(s.begin.config.getD [], w.tTYPE)])⟩
+      (by simp)
+    have hsz : (preNames (den br .nil)).length = (den br .nil).size := by
+      generalize den br .nil = G
+      induction G with
+      | nil => rfl
+      | cons _ _ _ _ a b => simp [preNames, GF.size, a, b]; omega
+    rw [he, hn]
+    refine ⟨?_, ?_⟩
+    · simp only [List.nil_append, hc, List.length_cons, List.length_nil, List.length_append, hsz]
+      congr 1
+      omega
+    · intro e hm
+      simp only [List.nil_append] at hm
+      exact (hp e hm).1
 
 end Gly.Props.C03
